@@ -320,8 +320,12 @@ class MITMProxyEventManager:
                         parsed_eq_resp = None
                     # HACK: see note in above request handler for EventQueueGet
                     req_ack_id = llsd.parse_xml(flow.request.content)["ack"]
+                    # Serialize before remembering the response, something we can't
+                    # even write out must never end up in the replay cache.
+                    flow.response.content = llsd.format_xml(parsed_eq_resp)
                     eq_manager.cache_last_poll_response(req_ack_id, parsed_eq_resp)
-                flow.response.content = llsd.format_xml(parsed_eq_resp)
+                else:
+                    flow.response.content = llsd.format_xml(parsed_eq_resp)
             elif cap_data.cap_name in self.UPLOAD_CREATING_CAPS:
                 if not region:
                     return
